@@ -582,3 +582,7 @@ def expected(m):
     for key in set(DENSITY_LABELS.values()):
         e[("one_rdms", key)] = present.get(key, Absent())
     return e
+
+
+# Classes that are generated but NOT asserted by C03 (triage decisions, see DESIGN.md section 7): class -> reason
+NOT_ASSERTED = {'fortran_3digit_exponent': 'Fortran output without exponent letter: edge case', 'rohf_scf_density': 'ROHF Total SCF Density is dropped on purpose (documented Gaussian bug work-around, DESIGN 3.2)', 'run_types': 'mapping of Force/POpt/FTS/PTS to run_type is a judgement, not stated by the file format'}
